@@ -252,6 +252,8 @@ def seq_oracle(run, drv=None):
             raise
         except Exception as e:  # noqa: BLE001
             run.count("prob.unavailable", f"seq/{it}:{type(e).__name__}")
+            if not isinstance(e, NotImplementedError):      # only "this statistic does not exist" is a legitimate refusal
+                run.oracle_fail("probabilistic", case, f"raised {type(e).__name__}: {str(e)[:120]}", f"prob_seq:raised:{it}")
             continue
         if not (torch.equal(dist.loc, loc) and torch.equal(dist.scale, scale)):
             bad.append("get_dist is not the distribution of the parameters the deterministic part computes")
@@ -283,6 +285,8 @@ def seq_oracle(run, drv=None):
                     bad.append("seq.log_prob(td) != dist.log_prob(td[sample])")
             except Exception as e:  # noqa: BLE001
                 run.count("prob.unavailable", f"seq.log_prob/{it}:{type(e).__name__}")
+                if not isinstance(e, NotImplementedError):
+                    bad.append(f"seq.log_prob(td) raised {type(e).__name__}: {str(e)[:100]}")
         if inplace in (None, True):
             src = td if inplace is True else None
             if src is not None:
